@@ -1610,7 +1610,11 @@ Qed.
 End Dump.
 
 (* ------------------------------------------------------------ the invariant *)
-Notation STEP := (step E ByNet false max aptx vis pol).
+(* the policy installed throughout the histories the theorems speak about *)
+Variable polv : N -> bool -> N -> path -> option E.
+Variable pv0 : N.
+Hypothesis Hpol : polv pv0 = pol.
+Notation STEP := (step E ByNet false max aptx vis polv).
 
 Definition basef (n : nbr E) : key -> option E :=
   fun k => kfind k (mirror_reach E (n_buf n) (n_mirror n)).
@@ -1623,7 +1627,8 @@ Definition nbr_ok (fl : list N) (R : rib) (n : nbr E) : Prop :=
    sets, the mirror and the LLGR-stale flags *)
 Definition Inv (s : state E) : Prop :=
   wf (s_rib s) /\ marks_live (s_llgr s) (s_rib s) /\
-  (n_reg (s_nbr s) = true -> nbr_ok (s_llgr s) (s_rib s) (s_nbr s)).
+  (n_reg (s_nbr s) = true -> nbr_ok (s_llgr s) (s_rib s) (s_nbr s)) /\
+  s_pv s = pv0.
 
 Lemma marks_live_le : forall fl R, marks_live fl R -> marks_le fl R.
 Proof. intros fl R H d q Hd Hq Hm. rewrite <- (H d q Hd Hq). exact Hm. Qed.
@@ -1677,10 +1682,11 @@ Proof.
     + now rewrite IH.
 Qed.
 
-Lemma emit_snap : forall fl R d, wf R -> marks_le fl R -> In d R -> emit fl R (snapc d) R.
+Lemma emit_snap : forall fl R d r, wf R -> marks_le fl R -> In d R ->
+  emit fl R (mkc (d_net d) (d_id d) true true r (d_paths d)) R.
 Proof.
-  intros fl R d [H1 [H2 H3]] Hml Hd.
-  pose proof (emit_set fl R (d_net d) true true None (d_paths d)) as He.
+  intros fl R d r [H1 [H2 H3]] Hml Hd.
+  pose proof (emit_set fl R (d_net d) true true r (d_paths d)) as He.
   unfold rset in He. rewrite (rfind_In R d H1 Hd) in He. cbn [fst snd] in He.
   rewrite rupdate_same in He by auto. apply He.
   unfold truthful_set, old_paths. rewrite (rfind_In R d H1 Hd).
@@ -1689,27 +1695,35 @@ Proof.
   - intros q Hq Hm. eapply Hml; eauto.
 Qed.
 
-Lemma refresh_ok : forall fl R (ds : list dest) (em : emap) p base,
-  wf R -> marks_le fl R -> (forall d, In d ds -> In d R) ->
+Lemma refresh_ok : forall fl R (cs : list change) (em : emap) p base,
+  wf R -> (forall c, In c cs -> emit fl R c R) ->
   emap_ok R em -> pend_ok fl R p base -> coherent E p ->
-  exists p', snd (fold_left (fun a c => PC fl c a)
-                            (filter_map (fun d => match d_paths d with [] => None | _ => Some (snapc d) end) ds)
-                            (em, SPtx E p)) = SPtx E p' /\
-             emap_ok R (fst (fold_left (fun a c => PC fl c a)
-                            (filter_map (fun d => match d_paths d with [] => None | _ => Some (snapc d) end) ds)
-                            (em, SPtx E p))) /\
+  exists p', snd (fold_left (fun a c => PC fl c a) cs (em, SPtx E p)) = SPtx E p' /\
+             emap_ok R (fst (fold_left (fun a c => PC fl c a) cs (em, SPtx E p))) /\
              pend_ok fl R p' base /\ coherent E p'.
 Proof.
-  intros fl R. induction ds as [|d ds IH]; intros em p base Hwf Hml Hsub He Hp Hc; cbn [filter_map fold_left].
+  intros fl R. induction cs as [|c cs IH]; intros em p base Hwf Hall He Hp Hc; cbn [fold_left].
   - exists p; auto.
-  - destruct (d_paths d) eqn:Hdp.
-    + apply IH; auto. intros; apply Hsub; right; auto.
-    + cbn [fold_left].
-      destruct (deliver_ok fl R (snapc d) R em p base Hwf) as [p1 [Hs [_ [He1 [Hp1 Hc1]]]]]; auto.
-      { apply emit_snap; auto. apply Hsub; left; auto. }
-      remember (PC fl (snapc d) (em, SPtx E p)) as st eqn:Hst. destruct st as [em1 sk1].
-      cbn [fst snd] in Hs, He1. subst sk1.
-      apply IH; auto. intros; apply Hsub; right; auto.
+  - destruct (deliver_ok fl R c R em p base Hwf) as [p1 [Hs [_ [He1 [Hp1 Hc1]]]]]; auto.
+    { apply Hall; left; auto. }
+    remember (PC fl c (em, SPtx E p)) as st eqn:Hst. destruct st as [em1 sk1].
+    cbn [fst snd] in Hs, He1. subst sk1.
+    apply IH; auto. intros; apply Hall; right; auto.
+Qed.
+
+Lemma refresh_changes_emit : forall fl R c, wf R -> marks_le fl R ->
+  In c (refresh_changes max (snapshot false max R)) -> emit fl R c R.
+Proof.
+  intros fl R c Hwf Hml Hc. rewrite snapshot_unlimited in Hc. unfold refresh_changes in Hc.
+  assert (Hsnap : forall c0, In c0 (filter_map (fun d => match d_paths d with [] => None | _ => Some (snapc d) end) R) ->
+                            exists d, In d R /\ c0 = snapc d).
+  { intros c0 H0. apply In_filter_map in H0 as [d [Hd Hs]]. exists d. split; auto.
+    destruct (d_paths d); inversion Hs; auto. }
+  destruct (ap max).
+  - apply in_flat_map in Hc as [c0 [Hc0 Hc]]. destruct (Hsnap c0 Hc0) as [d [Hd ->]].
+    apply in_map_iff in Hc as [q [Hq _]]. subst c. cbn [snapc c_net c_id c_paths].
+    apply (emit_snap fl R d (Some (p_pid q))); auto.
+  - destruct (Hsnap c Hc) as [d [Hd ->]]. apply (emit_snap fl R d None); auto.
 Qed.
 
 (* one RIB operation that leaves the destination in place and emits a change *)
@@ -1718,16 +1732,16 @@ Lemma rib_set_inv : forall fl s x,
   truthful_set fl (s_rib s) x ->
   let s' := rib_set E s x in
   s_llgr s' = fl /\ wf (s_rib s') /\ (n_reg (s_nbr s') = true -> nbr_ok fl (s_rib s') (s_nbr s')) /\
-  s_rib s' = fst (rset (fst (fst (fst (fst x)))) (snd x) (s_rib s)) /\
+  s_rib s' = fst (rset (fst (fst (fst (fst x)))) (snd x) (s_rib s)) /\ s_pv s' = s_pv s /\
   (forall d, In d (s_rib s') -> (d_net d = fst (fst (fst (fst x))) /\ d_paths d = snd x) \/
                                 (d_net d <> fst (fst (fst (fst x))) /\ In d (s_rib s))).
 Proof.
-  intros fl [R fl0 n] [[[[net bc] ac] repl] paths] Hfl Hwf Hn Htr. cbn [s_rib s_llgr s_nbr fst snd] in *.
+  intros fl [R fl0 pvv n] [[[[net bc] ac] repl] paths] Hfl Hwf Hn Htr. cbn [s_rib s_llgr s_nbr s_pv fst snd] in *.
   subst fl0. pose proof (emit_set fl R net bc ac repl paths Htr) as He. unfold mkc in He.
   destruct (emit_emit_ok fl R _ _ Hwf He) as [Hwf' _ _ _ _ Hpaths _]. cbn [c_net c_paths] in Hpaths.
-  cbv zeta. unfold rib_set. cbn [s_rib s_llgr s_nbr].
+  cbv zeta. unfold rib_set. cbn [s_rib s_llgr s_nbr s_pv].
   destruct (rset net paths R) as [R' i] eqn:Hrs. cbn [fst snd] in *.
-  cbn [s_rib s_llgr s_nbr]. split; [reflexivity|]. split; [exact Hwf'|]. split; [|split; auto].
+  cbn [s_rib s_llgr s_nbr s_pv]. split; [reflexivity|]. split; [exact Hwf'|]. split; [|split; [|split]]; auto.
   rewrite push_reg. intros Hr. apply (nbr_ok_emit fl R _ R' n); auto.
 Qed.
 
@@ -1736,66 +1750,68 @@ Lemma sets_inv : forall fl rs s,
   truthful_sets fl (s_rib s) rs ->
   let s' := fold_left (rib_set E) rs s in
   s_llgr s' = fl /\ wf (s_rib s') /\ marks_live fl (s_rib s') /\
-  (n_reg (s_nbr s') = true -> nbr_ok fl (s_rib s') (s_nbr s')).
+  (n_reg (s_nbr s') = true -> nbr_ok fl (s_rib s') (s_nbr s')) /\ s_pv s' = s_pv s.
 Proof.
   intros fl. induction rs as [|x rs IH]; intros s Hfl Hwf Hn Ht; cbn [fold_left truthful_sets] in *.
   - auto.
   - destruct Ht as [Ht1 Ht2].
-    destruct (rib_set_inv fl s x Hfl Hwf Hn Ht1) as [G1 [G2 [G3 [G4 _]]]].
-    apply IH; auto. rewrite G4. exact Ht2.
+    destruct (rib_set_inv fl s x Hfl Hwf Hn Ht1) as [G1 [G2 [G3 [G4 [G5 _]]]]].
+    rewrite <- G5. apply IH; auto. rewrite G4. exact Ht2.
 Qed.
 
 Lemma step_inv : forall s l, Inv s -> ok_label E s l -> Inv (STEP s l).
 Proof.
-  intros s l [Hwf [Hml Hn]] [Htr Hnr].
-  destruct l as [net bc ac repl paths | net | net emit_ | src b | src rs | | | | | ].
+  intros s l [Hwf [Hml [Hn Hpv]]] [Htr Hnr].
+  destruct l as [net bc ac repl paths | net | net emit_ | src b | src rs | | | | | | v].
   - (* RibSet *)
     cbn [step]. destruct Htr as [Hts Hmk].
     destruct (rib_set_inv (s_llgr s) s (net, bc, ac, repl, paths) eq_refl Hwf Hn Hts)
-      as [G1 [G2 [G3 [_ G5]]]]. cbn [fst snd] in G5.
-    split; [exact G2|]. split; [|rewrite G1; exact G3].
+      as [G1 [G2 [G3 [_ [G4 G5]]]]]. cbn [fst snd] in G5.
+    split; [exact G2|]. split; [|split; [rewrite G1; exact G3|congruence]].
     rewrite G1. intros d q Hd Hq. destruct (G5 d Hd) as [[_ Hp]|[_ Hd']].
     + rewrite Hp in Hq. apply Hmk; auto.
     + eapply Hml; eauto.
   - (* RibTouch *)
-    destruct s as [R fl n]. cbn [s_rib s_llgr s_nbr step] in *.
-    destruct (rfind net R) eqn:Hf; cbn [s_rib s_llgr s_nbr].
-    + split; [|split]; auto.
+    destruct s as [R fl pvv n]. cbn [s_rib s_llgr s_nbr s_pv step] in *.
+    destruct (rfind net R) eqn:Hf; cbn [s_rib s_llgr s_nbr s_pv].
+    + split; [|split; [|split]]; auto.
     + pose proof (silent_touch R net Hf) as Hs.
-      split; [|split]; cbn [s_rib s_llgr s_nbr]; auto.
+      split; [|split; [|split]]; cbn [s_rib s_llgr s_nbr s_pv]; auto.
       * apply wf_rset; auto. constructor.
       * unfold rset. rewrite Hf. cbn [fst]. intros d q Hd Hq.
         apply in_app_or in Hd as [Hd|[Hd|[]]]; [eapply Hml; eauto | subst d; destruct Hq].
       * intros Hr. eapply nbr_ok_silent; eauto.
   - (* RibFree *)
-    destruct s as [R fl n]. cbn [s_rib s_llgr s_nbr step] in *.
+    destruct s as [R fl pvv n]. cbn [s_rib s_llgr s_nbr s_pv step] in *.
     assert (Hmf : marks_live fl (rfree net R)).
     { intros d q Hd Hq. apply In_rfree in Hd as [Hd _]. eapply Hml; eauto. }
-    destruct (rfind net R) as [d|] eqn:Hf; cbn [s_rib s_llgr s_nbr].
+    destruct (rfind net R) as [d|] eqn:Hf; cbn [s_rib s_llgr s_nbr s_pv].
     + destruct emit_.
       * pose proof (emit_free fl R net d Hf) as He. unfold mkc in He.
-        split; [|split]; cbn [s_rib s_llgr s_nbr]; auto.
+        split; [|split; [|split]]; cbn [s_rib s_llgr s_nbr s_pv]; auto.
         -- apply wf_rfree; auto.
         -- rewrite push_reg. intros Hr. apply (nbr_ok_emit fl R _ (rfree net R) n); auto.
       * cbn [truthful] in Htr. pose proof (silent_free R net Htr) as Hs.
-        split; [|split]; cbn [s_rib s_llgr s_nbr]; auto.
+        split; [|split; [|split]]; cbn [s_rib s_llgr s_nbr s_pv]; auto.
         -- apply wf_rfree; auto.
         -- intros Hr. eapply nbr_ok_silent; eauto.
-    + split; [|split]; auto.
+    + split; [|split; [|split]]; auto.
   - (* LlgrFlip: only flips that flip nothing *)
-    destruct s as [R fl n]. cbn [s_rib s_llgr s_nbr step truthful] in *.
-    rewrite Htr. split; [|split]; auto.
+    destruct s as [R fl pvv n]. cbn [s_rib s_llgr s_nbr s_pv step truthful] in *.
+    rewrite Htr. split; [|split; [|split]]; auto.
   - (* LlgrMark *)
-    destruct s as [R fl n]. cbn [s_rib s_llgr s_nbr step truthful] in *.
+    destruct s as [R fl pvv n]. cbn [s_rib s_llgr s_nbr s_pv step truthful] in *.
     set (fl' := set_llgr src fl) in *.
-    destruct (sets_inv fl' rs {| s_rib := R; s_llgr := fl'; s_nbr := n |}) as [G1 [G2 [G3 G4]]]; auto.
+    destruct (sets_inv fl' rs {| s_rib := R; s_llgr := fl'; s_pv := pvv; s_nbr := n |})
+      as [G1 [G2 [G3 [G4 G5]]]]; auto.
     + cbn [s_nbr s_rib]. intros Hr. apply (nbr_ok_mono fl fl'); auto. intros y. apply set_llgr_sub.
-    + split; [exact G2|]. split; rewrite G1; auto.
+    + split; [exact G2|]. split; [rewrite G1; auto|]. split; [rewrite G1; auto|].
+      rewrite G5. cbn [s_pv]. exact Hpv.
   - (* Deliver *)
-    destruct s as [R fl n]. cbn [s_rib s_llgr s_nbr step] in *.
+    destruct s as [R fl pvv n]. cbn [s_rib s_llgr s_nbr s_pv step] in *. subst pvv. rewrite Hpol.
     destruct (n_chan n) as [|c rest] eqn:Hch.
-    + split; [|split]; auto.
-    + unfold with_nbr. split; [|split]; cbn [s_rib s_llgr s_nbr n_reg]; auto.
+    + split; [|split; [|split]]; auto.
+    + unfold with_nbr. split; [|split; [|split]]; cbn [s_rib s_llgr s_nbr s_pv n_reg]; auto.
       intros Hr. destruct (Hn Hr) as [L [H1 [H2 [H3 [H4 H5]]]]]. rewrite Hch in H2.
       destruct (chain_cons_inv fl L c rest R (n_emap n) (n_ptx n) (basef n) H2 H1 H3 H4)
         as [L1 [L2 [G1 [G2 [G3 [G4 G5]]]]]].
@@ -1804,45 +1820,47 @@ Proof.
       exists L2. cbn [n_chan n_emap n_ptx]. rewrite Hs. cbn [sink_ptx].
       split; [|split; [|split; [|split]]]; auto.
   - (* Flush *)
-    destruct s as [R fl n]. cbn [s_rib s_llgr s_nbr step] in *.
-    unfold with_nbr. split; [|split]; cbn [s_rib s_llgr s_nbr n_reg]; auto.
+    destruct s as [R fl pvv n]. cbn [s_rib s_llgr s_nbr s_pv step] in *.
+    unfold with_nbr. split; [|split; [|split]]; cbn [s_rib s_llgr s_nbr s_pv n_reg]; auto.
     intros Hr. destruct (Hn Hr) as [L [H1 [H2 [H3 [[m [Hb H4]] H5]]]]].
     exists L. cbn [n_chan n_emap n_ptx]. split; [|split; [|split; [|split]]]; auto.
     + exists m. split; auto. intros k. unfold T. rewrite pview_empty. unfold basef. cbn [n_buf n_mirror].
       unfold mirror_reach at 1. cbn [fold_left]. rewrite flush_lookup by auto. apply H4.
     + apply coherent_empty.
   - (* Register *)
-    destruct s as [R fl n]. cbn [s_rib s_llgr s_nbr step] in *.
-    unfold with_nbr. split; [|split]; cbn [s_rib s_llgr s_nbr n_reg]; auto.
+    destruct s as [R fl pvv n]. cbn [s_rib s_llgr s_nbr s_pv step] in *. subst pvv. rewrite Hpol.
+    unfold with_nbr. split; [|split; [|split]]; cbn [s_rib s_llgr s_nbr s_pv n_reg]; auto.
     intros _. destruct (dump_ok fl R Hwf (marks_live_le fl R Hml)) as [D1 D2].
     exists R. cbn [n_chan n_emap n_ptx]. split; [|split; [|split; [|split]]]; auto.
     + constructor.
     + apply coherent_empty.
   - (* Refresh *)
-    destruct s as [R fl n]. cbn [s_rib s_llgr s_nbr step] in *.
-    destruct (n_reg n) eqn:Hr; [|split; [|split]; cbn [s_rib s_llgr s_nbr]; auto; congruence].
-    unfold with_nbr. split; [|split]; cbn [s_rib s_llgr s_nbr n_reg]; auto.
+    destruct s as [R fl pvv n]. cbn [s_rib s_llgr s_nbr s_pv step] in *. subst pvv. rewrite Hpol.
+    destruct (n_reg n) eqn:Hr; [|split; [|split; [|split]]; cbn [s_rib s_llgr s_nbr s_pv]; auto; congruence].
+    unfold with_nbr. split; [|split; [|split]]; cbn [s_rib s_llgr s_nbr s_pv n_reg]; auto.
     intros _. destruct (Hn eq_refl) as [L [H1 [H2 [H3 [H4 H5]]]]].
     assert (Hch : n_chan n = []).
     { destruct (n_chan n) eqn:Hc; auto. exfalso. apply Hnr. split; auto. cbn [s_nbr]. rewrite Hc. discriminate. }
     rewrite Hch in H2.
     destruct (chain_nil_transfer fl L R (n_emap n) (n_ptx n) (basef n) H2 H1 H3 H4) as [G1 [G2 G3]].
-    rewrite snapshot_unlimited.
-    destruct (refresh_ok fl R R (n_emap n) (n_ptx n) (basef n) Hwf (marks_live_le fl R Hml)
-                         (fun d H => H) G2 G3 H5) as [p' [Hs [He2 [Hp2 Hc2]]]].
+    destruct (refresh_ok fl R (refresh_changes max (snapshot false max R)) (n_emap n) (n_ptx n) (basef n) Hwf
+                         (fun c Hc => refresh_changes_emit fl R c Hwf (marks_live_le fl R Hml) Hc)
+                         G2 G3 H5) as [p' [Hs [He2 [Hp2 Hc2]]]].
     exists R. cbn [n_chan n_emap n_ptx]. rewrite Hch, Hs. cbn [sink_ptx].
     split; [|split; [|split; [|split]]]; auto. constructor.
   - (* Unregister *)
-    destruct s as [R fl n]. cbn [s_rib s_llgr s_nbr step] in *.
-    unfold with_nbr. split; [|split]; cbn [s_rib s_llgr s_nbr nbr0 n_reg]; auto. discriminate.
+    destruct s as [R fl pvv n]. cbn [s_rib s_llgr s_nbr s_pv step] in *.
+    unfold with_nbr. split; [|split; [|split]]; cbn [s_rib s_llgr s_nbr s_pv nbr0 n_reg]; auto. discriminate.
+  - (* PolicyChange: not a step of the histories considered *)
+    destruct Htr.
 Qed.
 
-Notation RUN := (run_from E ByNet false max aptx vis pol).
-Notation OKRUN := (ok_run E ByNet false max aptx vis pol).
-Notation FRESHD := (fresh E ByNet false max aptx vis pol).
+Notation RUN := (run_from E ByNet false max aptx vis polv).
+Notation OKRUN := (ok_run E ByNet false max aptx vis polv).
+Notation FRESHD := (fresh E ByNet false max aptx vis polv).
 
-Lemma inv_state0 : Inv (state0 E).
-Proof. split; [apply wf_nil | split; [intros d q [] | discriminate]]. Qed.
+Lemma inv_state0 : pv0 = 0 -> Inv (state0 E).
+Proof. intros H. split; [apply wf_nil | split; [intros d q [] | split; [discriminate | auto]]]. Qed.
 
 Lemma run_inv : forall ls s, Inv s -> OKRUN s ls -> Inv (RUN s ls).
 Proof.
@@ -1864,7 +1882,7 @@ Qed.
 Lemma fresh_closed : forall s, Inv s ->
   forall k, kfind k (FRESHD s) = FRESH (live (s_llgr s)) (s_rib s) k.
 Proof.
-  intros s [Hwf [Hml _]] k. unfold fresh.
+  intros s [Hwf [Hml [_ Hpv]]] k. unfold fresh. rewrite Hpv, Hpol.
   destruct (dump_ok (s_llgr s) (s_rib s) Hwf (marks_live_le _ _ Hml)) as [_ [m [Hb D2]]].
   specialize (D2 k). unfold T in D2. rewrite pview_empty in D2. rewrite D2.
   apply fresh_marker_live; auto.
@@ -1885,7 +1903,7 @@ Lemma quiescent_eq : forall s, Inv s -> established E s -> quiescent E s ->
   same_routes E (view E s) (FRESHD s).
 Proof.
   intros s Hinv Hest [Q1 [Q2 [Q3 Q4]]] k. rewrite (fresh_closed s Hinv).
-  destruct Hinv as [Hwf [Hml Hn]]. destruct (Hn Hest) as [L [H1 [H2 [H3 [H4 H5]]]]].
+  destruct Hinv as [Hwf [Hml [Hn _]]]. destruct (Hn Hest) as [L [H1 [H2 [H3 [H4 H5]]]]].
   rewrite Q1 in H2.
   destruct (chain_nil_transfer _ L _ _ _ _ H2 H1 H3 H4) as [_ [_ [m [Hb G3]]]].
   specialize (G3 k). unfold T in G3. rewrite pview_nil in G3 by auto.
@@ -1899,7 +1917,7 @@ Lemma no_lost : forall s, Inv s -> established E s -> forall k e,
   withdrawal_pending E s k \/ change_undelivered E s k.
 Proof.
   intros s Hinv Hest k e Hv Hf. rewrite (fresh_closed s Hinv) in Hf.
-  destruct Hinv as [Hwf [Hml Hn]]. destruct (Hn Hest) as [L [H1 [H2 [H3 [[m [Hb H4]] H5]]]]].
+  destruct Hinv as [Hwf [Hml [Hn _]]]. destruct (Hn Hest) as [L [H1 [H2 [H3 [[m [Hb H4]] H5]]]]].
   destruct (existsb (fun c => c_net c =? fst k) (n_chan (s_nbr s))) eqn:Hex.
   - right. apply existsb_exists in Hex as [c [Hc Hk]]. apply N.eqb_eq in Hk. exists c; auto.
   - left. assert (Hno : forall c, In c (n_chan (s_nbr s)) -> c_net c <> fst k).
@@ -1931,15 +1949,15 @@ End Inv.
 Definition MAXOK (max : N) : bool := negb (max =? 1).
 
 Theorem C01_export_inv_preserved :
-  forall (E : Type) (max : N) (vis : path -> bool) (pol : bool -> N -> path -> option E)
+  forall (E : Type) (max : N) (vis : path -> bool) (pol : N -> bool -> N -> path -> option E)
          (ls : list label),
-    pol_marks_after_accept E pol ->
+    pol_marks_after_accept E (pol 0) ->
     ok_run E ByNet false max (MAXOK max) vis pol (state0 E) ls ->
-    Inv E max vis pol (run E ByNet false max (MAXOK max) vis pol ls).
-Proof. intros. unfold run. apply run_inv; auto. apply inv_state0. Qed.
+    Inv E max vis (pol 0) 0 (run E ByNet false max (MAXOK max) vis pol ls).
+Proof. intros. unfold run. apply (run_inv E max vis (pol 0) H pol 0 eq_refl); auto. apply inv_state0; auto. Qed.
 
 Lemma ok_of_truthful :
-  forall (E : Type) (max : N) (vis : path -> bool) (pol : bool -> N -> path -> option E)
+  forall (E : Type) (max : N) (vis : path -> bool) (pol : N -> bool -> N -> path -> option E)
          (ls : list label) s0,
     truthful_run E ByNet false max (MAXOK max) vis pol s0 ls ->
     ~ Known_C01_refresh_race E ByNet false max (MAXOK max) vis pol s0 ls ->
@@ -1953,23 +1971,23 @@ Proof.
 Qed.
 
 Theorem C01_quiescent_view_eq_fresh_outside_known :
-  forall (E : Type) (max : N) (vis : path -> bool) (pol : bool -> N -> path -> option E)
+  forall (E : Type) (max : N) (vis : path -> bool) (pol : N -> bool -> N -> path -> option E)
          (ls : list label),
-    pol_marks_after_accept E pol ->
+    pol_marks_after_accept E (pol 0) ->
     truthful_run E ByNet false max (MAXOK max) vis pol (state0 E) ls ->
     ~ Known_C01_refresh_race E ByNet false max (MAXOK max) vis pol (state0 E) ls ->
     let s := run E ByNet false max (MAXOK max) vis pol ls in
     established E s -> quiescent E s ->
     same_routes E (view E s) (fresh E ByNet false max (MAXOK max) vis pol s).
 Proof.
-  intros E max vis pol ls Hpa Ht Hr s He Hq. apply quiescent_eq; auto.
+  intros E max vis pol ls Hpa Ht Hr s He Hq. apply (quiescent_eq E max vis (pol 0) Hpa pol 0 eq_refl); auto.
   apply C01_export_inv_preserved; auto. apply ok_of_truthful; auto.
 Qed.
 
 Theorem C01_no_lost_withdrawal_outside_known :
-  forall (E : Type) (max : N) (vis : path -> bool) (pol : bool -> N -> path -> option E)
+  forall (E : Type) (max : N) (vis : path -> bool) (pol : N -> bool -> N -> path -> option E)
          (ls : list label),
-    pol_marks_after_accept E pol ->
+    pol_marks_after_accept E (pol 0) ->
     truthful_run E ByNet false max (MAXOK max) vis pol (state0 E) ls ->
     ~ Known_C01_refresh_race E ByNet false max (MAXOK max) vis pol (state0 E) ls ->
     let s := run E ByNet false max (MAXOK max) vis pol ls in
@@ -1978,22 +1996,22 @@ Theorem C01_no_lost_withdrawal_outside_known :
                 kfind k (fresh E ByNet false max (MAXOK max) vis pol s) = None ->
                 withdrawal_pending E s k \/ change_undelivered E s k.
 Proof.
-  intros E max vis pol ls Hpa Ht Hr s He k e Hv Hf. eapply no_lost; eauto.
+  intros E max vis pol ls Hpa Ht Hr s He k e Hv Hf. eapply (no_lost E max vis (pol 0) Hpa pol 0 eq_refl); eauto.
   apply C01_export_inv_preserved; auto. apply ok_of_truthful; auto.
 Qed.
 
 (* the model's Register dump is the closed form of the export rules, every route carrying
    the live LLGR-stale flag of its source *)
 Theorem C01_fresh_is_export_rules :
-  forall (E : Type) (max : N) (vis : path -> bool) (pol : bool -> N -> path -> option E)
+  forall (E : Type) (max : N) (vis : path -> bool) (pol : N -> bool -> N -> path -> option E)
          (ls : list label),
-    pol_marks_after_accept E pol ->
+    pol_marks_after_accept E (pol 0) ->
     ok_run E ByNet false max (MAXOK max) vis pol (state0 E) ls ->
     let s := run E ByNet false max (MAXOK max) vis pol ls in
     forall k, kfind k (fresh E ByNet false max (MAXOK max) vis pol s)
-              = fresh_at E max vis pol (live (s_llgr s)) (s_rib s) k.
+              = fresh_at E max vis (pol 0) (live (s_llgr s)) (s_rib s) k.
 Proof.
-  intros E max vis pol ls Hpa Hok s k. apply fresh_closed; auto.
+  intros E max vis pol ls Hpa Hok s k. apply (fresh_closed E max vis (pol 0) Hpa pol 0 eq_refl); auto.
   apply C01_export_inv_preserved; auto.
 Qed.
 
@@ -2003,16 +2021,19 @@ Definition P (pid src tok : N) : path := {| p_pid := pid; p_src := src; p_tok :=
 Definition PM (pid src tok : N) : path := {| p_pid := pid; p_src := src; p_tok := tok; p_mark := true |}.
 
 Definition crun (g : cfg) (ls : list label) : state CE :=
-  run CE (g_keying g) (g_limited g) (g_max g) (g_aptx g) (cvis g) (cpol g) ls.
+  run CE (g_keying g) (g_limited g) (g_max g) (g_aptx g) (cvis g) (cpolv g) ls.
 Definition cfresh (g : cfg) (s : state CE) : list (key * CE) :=
-  fresh CE (g_keying g) (g_limited g) (g_max g) (g_aptx g) (cvis g) (cpol g) s.
+  fresh CE (g_keying g) (g_limited g) (g_max g) (g_aptx g) (cvis g) (cpolv g) s.
 
 Definition G (k : keying) (lim : bool) (max : N) (hidden : list N) : cfg :=
   {| g_keying := k; g_limited := lim; g_max := max; g_aptx := negb (max =? 1);
      g_hidden := hidden; g_rej := [] |}.
 
-Lemma cpol_marks_after_accept : forall g, pol_marks_after_accept CE (cpol g).
-Proof. intros g b net q. unfold cpol. destruct (memN (p_tok q) (g_rej g)); split; auto; discriminate. Qed.
+Lemma cpol_marks_after_accept : forall g, pol_marks_after_accept CE (cpolv g 0).
+Proof.
+  intros g b net q. unfold cpolv, cpol. cbn [N.eqb].
+  destruct (memN (p_tok q) (g_rej g)); split; auto; discriminate.
+Qed.
 
 (* (a) the code before fix ee21a37 (PendingTx keyed by dest_id): prefix 1 is advertised,
    removed, and prefix 0 is created and takes the freed dest_id 0 before the flush *)
@@ -2083,7 +2104,7 @@ Definition w_llgr_new : list label :=
 Example C01_llgr_fixed :
   let g := G ByNet false 1 [] in
   let s := crun g w_llgr_new in
-  truthful_run CE ByNet false 1 false (cvis g) (cpol g) (state0 CE) w_llgr_new /\
+  truthful_run CE ByNet false 1 false (cvis g) (cpolv g) (state0 CE) w_llgr_new /\
   established CE s /\ quiescent CE s /\
   view CE s = [((0, 0), (2, 2, 1))] /\ cfresh g s = [((0, 0), (2, 2, 1))].
 Proof.
@@ -2111,7 +2132,7 @@ Definition w_race : list label :=
 Lemma C01_no_lost_withdrawal_refuted_refresh_race :
   let g := G ByNet false 2 [1] in
   let s := crun g w_race in
-  Known_C01_refresh_race CE ByNet false 2 true (cvis g) (cpol g) (state0 CE) w_race /\
+  Known_C01_refresh_race CE ByNet false 2 true (cvis g) (cpolv g) (state0 CE) w_race /\
   established CE s /\ quiescent CE s /\
   exists k e, kfind k (view CE s) = Some e /\ kfind k (cfresh g s) = None /\
               ~ withdrawal_pending CE s k /\ ~ change_undelivered CE s k.
@@ -2140,8 +2161,8 @@ Definition w_ok : list label :=
 Example C01_hypotheses_satisfiable :
   let max := 2 in
   let vis := cvis (G ByNet false max []) in
-  let pol := cpol (G ByNet false max []) in
-  pol_marks_after_accept CE pol /\
+  let pol := cpolv (G ByNet false max []) in
+  pol_marks_after_accept CE (pol 0) /\
   truthful_run CE ByNet false max (MAXOK max) vis pol (state0 CE) w_ok /\
   ~ Known_C01_refresh_race CE ByNet false max (MAXOK max) vis pol (state0 CE) w_ok /\
   let s := run CE ByNet false max (MAXOK max) vis pol w_ok in
